@@ -1,5 +1,6 @@
 import TypifyModel.Proofs.C02
 import TypifyModel.Proofs.Tagging
+import TypifyModel.Proofs.TaggingComplete
 open TypifyModel.C02 TypifyModel.Conv
 #print axioms struct_accepts
 #print axioms variant_accepts
@@ -7,6 +8,9 @@ open TypifyModel.C02 TypifyModel.Conv
 #print axioms convD_accepts
 #print axioms conv_accepts
 #print axioms TypifyModel.Tagging.intTag_sound
+#print axioms TypifyModel.Tagging.intTag_complete
+#print axioms TypifyModel.Tagging.intTag_exact
+#print axioms TypifyModel.Tagging.intTag_none_iff
 #print axioms TypifyModel.Tagging.internal_panics_only_on_assert
 #print axioms TypifyModel.Tagging.external_names_nodup
 #print axioms TypifyModel.Tagging.tagged_branches_exclusive
